@@ -309,7 +309,7 @@ class File(_Observable):
     _properties = OrderedDict([
         ('type', TypeProperty(_type, spec_version='2.0')),
         ('hashes', HashesProperty(HASHING_ALGORITHM, spec_version="2.0")),
-        ('size', IntegerProperty()),
+        ('size', IntegerProperty(min=0)),
         ('name', StringProperty()),
         ('name_enc', StringProperty()),
         ('magic_number_hex', HexProperty()),
